@@ -803,6 +803,25 @@ func TestC10(t *testing.T) {
 			}
 		}
 	}
+	// a zero deadline sent on a stream (actions-level request and gRPC StreamingPull request alike) makes the
+	// message deliverable now and wakes the subscription's waiters — the stream's own fetch is one of them:
+	// with room for one message it sends the message again promptly
+	if !hasConcrete(st.Violations) {
+		for _, grpc := range []bool{false, true} {
+			cs := c11Case{Name: fmt.Sprintf("zero-deadline-on-stream-grpc=%v", grpc), Grpc: grpc,
+				Actions: []c11Action{{K: "fc", Msgs: 1, Byts: 10000}, {K: "publish", Pads: []int{0}}, {K: "delay0", Pick: []int{0}}, {K: "advance", D: 2 * Sec}}}
+			r := c11Run(t, Seed(), cs, map[string]bool{"stall-head-of-line": true})
+			st.Count("stream_zero_deadline_cases", 1)
+			if r.sentTotal < 2 {
+				p := ReplayPath(fmt.Sprintf("C10-stream-zero-deadline-grpc=%v-%d.json", grpc, Seed()))
+				what := fmt.Sprintf("a streaming pull (grpc=%v) with room for one message has been sent message m; the client sends a zero deadline for m on the stream; 2 s later m has been sent %d time(s) in all: the zero deadline did not make m deliverable and wake the stream's waiting fetch (%s)", grpc, r.sentTotal, r.violation)
+				b, _ := json.MarshalIndent(c11Replay{Property: "C10", Sig: "stream-zero-deadline-no-wake", Seed: Seed(), Case: cs, What: what}, "", " ")
+				os.WriteFile(p, b, 0o644)
+				st.Violate(Violation{What: "[stream-zero-deadline-no-wake] " + what, Replay: p, FoundInput: true, Sig: "stream-zero-deadline-no-wake"})
+				break
+			}
+		}
+	}
 	if corrBroken != nil && len(st.Violations) == 0 {
 		st.Violate(*corrBroken)
 	}
